@@ -21,10 +21,11 @@ import (
 )
 
 type c12LateConn struct {
-	mu     sync.Mutex
-	cond   *sync.Cond
-	end    error
-	closed bool
+	mu       sync.Mutex
+	cond     *sync.Cond
+	end      error
+	closed   bool
+	closeErr error // what Close reports (a closing handshake on a dead link fails): the connection is closed all the same
 }
 
 func newC12LateConn() *c12LateConn {
@@ -56,7 +57,7 @@ func (c *c12LateConn) Close() error {
 	c.closed = true
 	c.cond.Broadcast()
 	c.mu.Unlock()
-	return nil
+	return c.closeErr
 }
 func (c *c12LateConn) finish(how string) {
 	c.mu.Lock()
@@ -93,6 +94,15 @@ func c12LateCase(f []string) string {
 	obfs, _ := MakeObfuscator(EncryptionMethodPlain, key)
 	sesh := MakeSession(1, SessionConfig{Obfuscator: obfs, InactivityTimeout: time.Hour})
 	pool := []*c12LateConn{newC12LateConn(), newC12LateConn()}
+	if len(f) > 5 && f[5] == "closeerr" {
+		// eight connections whose Close reports an error: every one of them must be closed nevertheless
+		pool = nil
+		for i := 0; i < 8; i++ {
+			c := newC12LateConn()
+			c.closeErr = errors.New("close: closing handshake failed")
+			pool = append(pool, c)
+		}
+	}
 	for _, c := range pool {
 		sesh.AddConnection(c)
 	}
@@ -104,7 +114,14 @@ func c12LateCase(f []string) string {
 	}
 	c12LateWait(sesh.IsClosed, 5*time.Second)
 	early := 0
-	c12LateWait(func() bool { return pool[0].isClosed() && pool[1].isClosed() }, 5*time.Second)
+	c12LateWait(func() bool {
+		for _, c := range pool {
+			if !c.isClosed() {
+				return false
+			}
+		}
+		return true
+	}, 4*time.Second)
 	for _, c := range pool {
 		if c.isClosed() {
 			early++
@@ -141,7 +158,7 @@ func TestVerifC12LateConn(t *testing.T) {
 	defer done()
 	for sc.Scan() {
 		f := vfFields(sc.Text())
-		if len(f) != 5 || f[1] != "LATE" {
+		if len(f) < 5 || f[1] != "LATE" {
 			continue
 		}
 		fmt.Fprintf(w, "%s %s\n", f[0], c12LateCase(f))
